@@ -56,6 +56,9 @@ type Case struct {
 	Layer      string `json:"layer"` // parser | pipeline | compressor
 	Serializer string `json:"serializer"`
 	Compress   string `json:"compress"`
+	// CompressOff: compress.enable is false (and the threshold huge) while a compressor type is configured:
+	// whatever the writer decides to do, the context it records must let the reader get the log back
+	CompressOff bool `json:"compress_off,omitempty"`
 	Logs       []Log  `json:"logs,omitempty"`
 	Data       []byte `json:"data,omitempty"` // compressor layer
 }
@@ -350,7 +353,7 @@ func runCase(c Case) *pt.Failure {
 			return compareLogs(c, want, got)
 		case "pipeline":
 			undo.InitUndoConfig(undo.Config{DataValidation: true, LogSerialization: c.Serializer, LogTable: "undo_log", OnlyCareUpdateColumns: true,
-				CompressConfig: undo.CompressConfig{Enable: c.Compress != "" && c.Compress != "None", Type: c.Compress, Threshold: "0"}})
+				CompressConfig: undo.CompressConfig{Enable: c.Compress != "" && c.Compress != "None" && !c.CompressOff, Type: c.Compress, Threshold: map[bool]string{false: "0", true: "64m"}[c.CompressOff]}})
 			want := c.build()
 			src := c.build()
 			tx := &types.TransactionContext{XID: want.Xid, BranchID: want.BranchID, RoundImages: &types.RoundRecordImage{}}
@@ -564,7 +567,7 @@ func TestPropParserRoundTrip(t *testing.T) {
 func TestPropPipeline(t *testing.T) {
 	ctx.Check(t, func(rt *rapid.T) {
 		c := Case{Layer: "pipeline", Serializer: rapid.SampledFrom([]string{"json", "protobuf"}).Draw(rt, "serializer"),
-			Compress: rapid.SampledFrom(compressTypes).Draw(rt, "compress"), Logs: drawLogs(rt)}
+			Compress: rapid.SampledFrom(compressTypes).Draw(rt, "compress"), Logs: drawLogs(rt), CompressOff: rapid.IntRange(0, 3).Draw(rt, "compressOff") == 0}
 		// FlushUndoLog skips transactions without any imaged row: make sure there is one
 		has := false
 		for _, l := range c.Logs {
